@@ -204,7 +204,7 @@ func Main(args []string) error {
 			stop = cs.stopRel
 			c.Extra = append(c.Extra, fmt.Sprintf("stop_%d", cs.ast+cs.stopRel))
 		}
-		emit(tl.HeaderE(idx, a, rt, c, tr.E{"stop": stop, "multi": cs.periods > 0}))
+		emit(tl.HeaderE(idx, a, rt, c, tr.E{"stop": stop, "multi": cs.periods > 0, "refvod0": a.Video.Vod0}))
 		N := int64(rt.N)
 		BN := int64(brk.N)
 		loopMS := rt.L * 1000 / rt.TS
